@@ -545,7 +545,8 @@ struct DbCase
 {
   ColumnsCase cols;
   FOpt fo;
-  template<class A> void io(A& a) { a("cols", cols)("fo", fo); }
+  int hist = 0; // 1: the Db had an earlier life (a leading working column was deleted: user identifiers and column ranks differ)
+  template<class A> void io(A& a) { a("cols", cols)("fo", fo)("hist", hist); }
 };
 static DbCase genDb()
 {
@@ -553,6 +554,7 @@ static DbCase genDb()
   int nech = G::pct(5) ? 0 : G::sz(1, 8);
   genColumns(c.cols, nech, 0, 6, G::pick<int>({0, 20, 50}));
   c.fo = genFOpt();
+  c.hist = (nech > 0 && G::pct(35)) ? 1 : 0;
   return c;
 }
 static VectorString toVS(const std::vector<std::string>& v)
@@ -578,7 +580,19 @@ static void runDb(const DbCase& c, Ctx& ctx)
   resetGlobals();
   ctx.label("class:Db");
   ctx.at("Db:build");
-  std::unique_ptr<Db> x(Db::createFromSamples(c.cols.nech, ELoadBy::COLUMN, toVD(c.cols.vals), toVS(c.cols.names), VectorString(), c.cols.rank));
+  std::unique_ptr<Db> x;
+  if (c.hist)
+  {
+    std::vector<std::string> names = c.cols.names;
+    names.insert(names.begin(), "verif_scratch");
+    std::vector<double> vals((size_t)c.cols.nech, 0.);
+    vals.insert(vals.end(), c.cols.vals.begin(), c.cols.vals.end());
+    x.reset(Db::createFromSamples(c.cols.nech, ELoadBy::COLUMN, toVD(vals), toVS(names), VectorString(), c.cols.rank));
+    if (x) x->deleteColumn("verif_scratch");
+    ctx.label("db-history:column-deleted-before");
+  }
+  else
+    x.reset(Db::createFromSamples(c.cols.nech, ELoadBy::COLUMN, toVD(c.cols.vals), toVS(c.cols.names), VectorString(), c.cols.rank));
   if (!x) { ctx.label("build-refused"); return; }
   applyLocators(x.get(), c.cols, c.cols.rank ? 1 : 0);
   // a Db without any column (samples only) has its own class key
